@@ -1,5 +1,5 @@
 (* C04 - record IDs are unique per workspace; raw IDs are substituted consistently.
-   Statements only; every proof is `exact <lemma>` into C04_RecordIDs/Proofs.v (witnesses by vm_compute).
+   Statements only; every proof is `exact <lemma>` into C04_RecordIDs/{Proofs,Link}.v (witnesses by vm_compute).
 
    Vocabulary (C04_RecordIDs/Model.v): a history is a list of `IEvent ws ev` (an event offered to workspace ws:
    built, validated, and - if valid - regenerated and logged) and `IRestart` (every workspace's generator is
@@ -8,13 +8,17 @@
    and that `rep` are the (raw, storage) pairs handed out by NextID = the NewIDs reported to the client.
    `w_log w` are the IDs recorded in the workspace's log (new CUD rows and argument-tree rows).
 
-   Hypotheses used below:
-     bounded h       no uint64 wrap-around: (every ID named in h) + 1 + (number of rows in h) < 2^64
-     singles_ok h    singleton IDs supplied by the registry lie in the singleton range
-     arg_ids_raw h   argument documents carry raw IDs only (excludes finding F41)
-     cud_refs_arg_free ev   CUD rows do not refer to raw IDs declared in the argument (excludes finding F12) *)
+   The theorems are about the code after the repairs of F12 (adba86208), F41 (2dce4071c) and F42 (cf81abbbf); the
+   last section keeps, as lemmas about the model variants selected by explicit flags, why each repair was needed.
+
+   The only hypotheses left:
+     bounded h       (every ID named in h) + 1 + (number of rows in h) < 2^64.  Genuinely needed: the generator is
+                     a uint64 counter; an explicit ID of 2^64-2 followed by two creates makes NextID wrap whatever
+                     UpdateOnSync does (`generated_ids_are_user_ids_unbounded_refuted`).  For one event the same
+                     condition is `room 0 g rows`.
+     singles_ok h    singleton IDs supplied by the registry lie in the singleton range (C10's subject) *)
 From Coq Require Import List NArith Lia.
-From V Require Import Lib.Check Gen.Params C04_RecordIDs.Model C04_RecordIDs.Proofs.
+From V Require Import Lib.Check Gen.Params C04_RecordIDs.Model C04_RecordIDs.Proofs C04_RecordIDs.Link.
 Import ListNotations.
 Local Open Scope N_scope.
 
@@ -25,29 +29,20 @@ Lemma reserved_ids_are_below_user_ids : c04_max_reserved_id < c04_first_user_id.
 Proof. exact layout_reserved_below_user. Qed.
 Lemma singleton_ids_are_reserved : c04_max_raw_id < c04_max_singleton_id /\ c04_max_singleton_id < c04_first_user_id.
 Proof. exact layout_singletons_reserved. Qed.
-(* the code as written: UpdateOnSync has no upper bound on syncID (F42), the argument pass does not call
-   UpdateOnSync (F41), argument and CUDs use two independent plans (F12).  A repair flips a flag, re-opens this
-   lemma and the `_refuted` witnesses, and the `_when_...` theorems below become the ones about the code. *)
-Lemma code_as_written :
-  c04_update_on_sync_guarded = false /\ c04_arg_updates_on_sync = false /\ c04_plans_shared = false.
-Proof. repeat split; reflexivity. Qed.
+(* the repairs are in the source: UpdateOnSync ignores a syncID whose successor does not fit (F42), the argument
+   pass calls UpdateOnSync for explicit IDs (F41), the CUD pass starts from the argument's plan (F12).
+   Reverting one of them flips a flag and re-opens the theorem that depends on it. *)
+Lemma arg_pass_syncs : c04_arg_updates_on_sync = true.
+Proof. reflexivity. Qed.
+Lemma plans_shared : c04_plans_shared = true.
+Proof. reflexivity. Qed.
+Lemma update_on_sync_guarded : c04_update_on_sync_guarded = true.
+Proof. reflexivity. Qed.
 
 (* ================= 1. generated IDs are user IDs, handed out in increasing order ================= *)
-(* Full statement: for every history h (restarts anywhere) and every event accepted after it, every generated ID
-   is >= FirstUserRecordID (so never null, raw or reserved).
-   The faithful model refutes it: the generator is a uint64 that wraps (F42). *)
-Theorem generated_ids_are_user_ids_refuted :
-  exists h ws ev w' ev' rep, singles_ok (h ++ [IEvent ws ev])
-    /\ step_event (run st_init h ws) ev = (w', Accepted ev' rep)
-    /\ exists x, In x (map snd rep) /\ x = 0.
-Proof.
-  exists [IEvent 1 (mkEv true [] [mkRow 18446744073709551615 0 [0; 0] 0] [])], 1,
-         (mkEv false [] [mkRow 7 0 [0; 0] 0; mkRow 1 0 [7; 0] 0] []).
-  eexists. eexists. eexists. split; [apply singles_okb_sound; reflexivity|].
-  split; [vm_compute; reflexivity|]. exists 0. split; [left; reflexivity|reflexivity].
-Qed.
-
-Theorem generated_ids_are_user_ids_partial :
+(* for every history h (restarts anywhere) and every event accepted after it, every generated ID is
+   >= FirstUserRecordID, so never null, raw or reserved *)
+Theorem generated_ids_are_user_ids :
   forall h ws ev w' ev' rep,
   bounded (h ++ [IEvent ws ev]) -> singles_ok (h ++ [IEvent ws ev]) ->
   step_event (run st_init h ws) ev = (w', Accepted ev' rep) ->
@@ -61,6 +56,18 @@ Proof.
   exact (conj F (conj U (conj (user_not_raw x F) (conj (user_not_reserved x F) (user_not_null x F))))).
 Qed.
 
+(* `bounded` cannot be dropped, with or without the guard in UpdateOnSync: NextID itself wraps *)
+Theorem generated_ids_are_user_ids_unbounded_refuted :
+  exists h ws ev w' ev' rep, singles_ok (h ++ [IEvent ws ev])
+    /\ step_event (run st_init h ws) ev = (w', Accepted ev' rep)
+    /\ exists x, In x (map snd rep) /\ x = 0.
+Proof.
+  exists [IEvent 1 (mkEv true [] [mkRow 18446744073709551614 0 [0; 0] 0] [])], 1,
+         (mkEv false [] [mkRow 7 0 [0; 0] 0; mkRow 1 0 [7; 0] 0] []).
+  eexists. eexists. eexists. split; [apply singles_okb_sound; reflexivity|].
+  split; [vm_compute; reflexivity|]. exists 0. split; [right; left; reflexivity|reflexivity].
+Qed.
+
 (* the IDs of one event are handed out in strictly increasing order, starting at the generator's value *)
 Theorem ids_strictly_increasing :
   forall h ws ev w' ev' rep,
@@ -70,41 +77,19 @@ Theorem ids_strictly_increasing :
 Proof. intros h ws ev w' ev' rep HB HS E. exact (proj1 (generated_ids_proved _ _ h ws ev w' ev' rep HB HS E)). Qed.
 
 (* ================= 2. unique per workspace, including after recovery ================= *)
-(* Full statement: for every history h (events of any workspaces, restarts anywhere) and every event accepted
-   after it, the generated IDs are pairwise distinct and differ from every ID recorded in that workspace's log.
-   The faithful model refutes it: explicit IDs of a synced argument document do not advance the live
-   generator (F41); recovery does look at them, so a restart in between hides the defect. *)
-Theorem unique_per_ws_refuted :
-  exists h ws ev w' ev' rep, bounded (h ++ [IEvent ws ev]) /\ singles_ok (h ++ [IEvent ws ev])
-    /\ step_event (run st_init h ws) ev = (w', Accepted ev' rep)
-    /\ exists x, In x (map snd rep) /\ In x (w_log (run st_init h ws)).
-Proof.
-  exists [IEvent 1 (mkEv true [mkRow 200001 0 [0; 0] 0] [] [])], 1, (mkEv false [] [mkRow 1 0 [0; 0] 0] []).
-  eexists. eexists. eexists. split; [apply boundedb_sound; reflexivity|]. split; [apply singles_okb_sound; reflexivity|].
-  split; [vm_compute; reflexivity|]. exists 200001. split; left; reflexivity.
-Qed.
-
-Theorem unique_per_ws_partial :
+(* for every history h (events of any workspaces - new or synced, explicit IDs anywhere - and restarts at any
+   position) and every event accepted after it: the generated IDs are pairwise distinct and differ from every ID
+   recorded in that workspace's log; and the log grows by exactly the stored IDs of the event *)
+Theorem unique_per_ws :
   forall h ws ev w' ev' rep,
-  bounded (h ++ [IEvent ws ev]) -> singles_ok (h ++ [IEvent ws ev]) -> arg_ids_raw h ->
+  bounded (h ++ [IEvent ws ev]) -> singles_ok (h ++ [IEvent ws ev]) ->
   step_event (run st_init h ws) ev = (w', Accepted ev' rep) ->
   NoDup (map snd rep)
   /\ (forall x, In x (map snd rep) -> ~ In x (w_log (run st_init h ws)))
   /\ w_log w' = w_log (run st_init h ws) ++ event_ids ev'.
-Proof. intros h ws ev w' ev' rep HB HS HA. exact (unique_proved _ _ h ws ev w' ev' rep HB HS (or_intror HA)). Qed.
+Proof. intros h ws ev w' ev' rep HB HS. exact (unique_proved _ _ h ws ev w' ev' rep HB HS (or_introl arg_pass_syncs)). Qed.
 
-(* with the argument pass calling UpdateOnSync (the proposed repair of F41) the extra hypothesis is not needed *)
-Theorem unique_per_ws_when_arg_pass_syncs :
-  forall ps h ws ev w' ev' rep,
-  bounded (h ++ [IEvent ws ev]) -> singles_ok (h ++ [IEvent ws ev]) ->
-  step_event_gen true ps (run_gen true ps st_init h ws) ev = (w', Accepted ev' rep) ->
-  NoDup (map snd rep)
-  /\ (forall x, In x (map snd rep) -> ~ In x (w_log (run_gen true ps st_init h ws)))
-  /\ w_log w' = w_log (run_gen true ps st_init h ws) ++ event_ids ev'.
-Proof. intros ps h ws ev w' ev' rep HB HS. exact (unique_proved true ps h ws ev w' ev' rep HB HS (or_introl eq_refl)). Qed.
-
-(* recovery: whatever the history (explicit argument IDs included), the rebuilt generator is above every ID in
-   the log of its workspace, and never below FirstUserRecordID *)
+(* recovery: the rebuilt generator is above every ID in the log of its workspace, never below FirstUserRecordID *)
 Theorem recovery_dominates_log :
   forall h ws, bounded h -> singles_ok h ->
   let w := run st_init (h ++ [IRestart]) ws in
@@ -112,40 +97,73 @@ Theorem recovery_dominates_log :
 Proof. exact (recovery_dominates_proved _ _). Qed.
 
 (* ================= 3. raw IDs are substituted consistently ================= *)
-(* Full statement: for every valid event and generator state, regeneration yields a stored event and a reported
-   mapping that are a `consistent_substitution` (Proofs.v): one map m, the identity on storage IDs, sends every
-   declared raw ID to a storage ID; every ID, parent and reference field of the argument rows, creates and
-   updates is rewritten by m; the reported pairs are exactly (raw, m raw) for the declared non-singleton rows;
-   no raw ID remains.
-   The faithful model refutes it: the CUD pass does not know the argument's plan (F12). *)
-Theorem substitution_consistent_refuted :
-  exists g ev g' ev' rep, valid ev = true /\ c04_first_user_id <= g /\ room 0 g (e_arg ev ++ e_creates ev)
-    /\ regenerate g ev = (g', ev', rep) /\ ~ no_raw_left ev'.
+(* for every valid event and generator state, regeneration yields a stored event and a reported mapping that are a
+   `consistent_substitution` (Proofs.v): one map m, the identity on storage IDs, sends every declared raw ID to a
+   storage ID; every ID, parent and reference field of the argument rows, creates and updates is rewritten by m;
+   the reported pairs are exactly (raw, m raw) for the declared non-singleton rows; no raw ID remains *)
+Theorem substitution_consistent :
+  forall g ev g' ev' rep,
+  valid ev = true -> Forall single_ok (e_creates ev) -> c04_first_user_id <= g ->
+  room 0 g (e_arg ev ++ e_creates ev) ->
+  regenerate g ev = (g', ev', rep) ->
+  consistent_substitution ev ev' rep.
+Proof. intros g ev g' ev' rep Hv Hs Hg Hr. exact (substitution_proved _ _ g ev g' ev' rep Hv Hs Hg Hr (or_introl plans_shared)). Qed.
+
+(* ================= 4. the link to the trace checker ================= *)
+(* `model_trace st h` is the trace the model itself produces for h (inputs + its outputs as observations).
+   For every bounded history that trace passes the property oracle `satisfies` that bin/check evaluates on the
+   traces observed from the Go code.  So on every observed trace on which the code agrees with the model
+   (`agrees`), `satisfies` holds for the reasons the theorems above give. *)
+Theorem model_traces_satisfy_the_oracle :
+  forall h, bounded h -> singles_ok h -> satisfies (model_trace st_init h) = true.
+Proof. intros h HB HS. exact (model_satisfies_proved _ _ h HB HS (or_introl arg_pass_syncs) (or_introl plans_shared)). Qed.
+
+(* ================= 5. why the repairs were needed (model variants selected by explicit flags) ================= *)
+(* F12: with two independent plans a CUD reference to a raw ID of the argument stays raw; the statement of
+   section 3 then needs `cud_refs_arg_free` *)
+Theorem substitution_refuted_with_separate_plans :
+  exists au g ev g' ev' rep, valid ev = true /\ c04_first_user_id <= g /\ room 0 g (e_arg ev ++ e_creates ev)
+    /\ regenerate_gen au false g ev = (g', ev', rep) /\ ~ no_raw_left ev'.
 Proof.
-  exists 200001, (mkEv false [mkRow 1 0 [0; 0] 0] [mkRow 2 0 [1; 0] 0] []).
+  exists true, 200001, (mkEv false [mkRow 1 0 [0; 0] 0] [mkRow 2 0 [1; 0] 0] []).
   eexists. eexists. eexists. split; [reflexivity|]. split; [vm_compute; discriminate|].
   split; [apply roomb_sound; reflexivity|]. split; [vm_compute; reflexivity|].
   intros H. specialize (H (mkRow 200002 0 [1; 0] 0) 1). cbn in H.
   assert (C : is_raw 1 = false) by (apply H; auto). vm_compute in C. discriminate.
 Qed.
-
-Theorem substitution_consistent_partial :
-  forall g ev g' ev' rep,
-  valid ev = true -> Forall single_ok (e_creates ev) -> c04_first_user_id <= g ->
-  room 0 g (e_arg ev ++ e_creates ev) ->
-  cud_refs_arg_free ev ->
-  regenerate g ev = (g', ev', rep) ->
-  consistent_substitution ev ev' rep.
-Proof. intros g ev g' ev' rep Hv Hs Hg Hr Hf. exact (substitution_proved _ _ g ev g' ev' rep Hv Hs Hg Hr (or_intror Hf)). Qed.
-
-(* with one plan shared by the argument pass and the CUD pass (the proposed repair of F12): full statement *)
-Theorem substitution_consistent_when_plans_shared :
+Theorem substitution_consistent_with_separate_plans :
   forall au g ev g' ev' rep,
   valid ev = true -> Forall single_ok (e_creates ev) -> c04_first_user_id <= g ->
-  room 0 g (e_arg ev ++ e_creates ev) ->
-  regenerate_gen au true g ev = (g', ev', rep) ->
+  room 0 g (e_arg ev ++ e_creates ev) -> cud_refs_arg_free ev ->
+  regenerate_gen au false g ev = (g', ev', rep) ->
   consistent_substitution ev ev' rep.
-Proof. intros au g ev g' ev' rep Hv Hs Hg Hr. exact (substitution_proved au true g ev g' ev' rep Hv Hs Hg Hr (or_introl eq_refl)). Qed.
+Proof. intros au g ev g' ev' rep Hv Hs Hg Hr Hf. exact (substitution_proved au false g ev g' ev' rep Hv Hs Hg Hr (or_intror Hf)). Qed.
+
+(* F41: when the argument pass does not call UpdateOnSync, an explicit argument ID is handed out again *)
+Theorem unique_refuted_without_arg_sync :
+  exists ps h ws ev w' ev' rep, bounded (h ++ [IEvent ws ev]) /\ singles_ok (h ++ [IEvent ws ev])
+    /\ step_event_gen false ps (run_gen false ps st_init h ws) ev = (w', Accepted ev' rep)
+    /\ exists x, In x (map snd rep) /\ In x (w_log (run_gen false ps st_init h ws)).
+Proof.
+  exists true, [IEvent 1 (mkEv true [mkRow 200001 0 [0; 0] 0] [] [])], 1, (mkEv false [] [mkRow 1 0 [0; 0] 0] []).
+  eexists. eexists. eexists. split; [apply boundedb_sound; reflexivity|]. split; [apply singles_okb_sound; reflexivity|].
+  split; [vm_compute; reflexivity|]. exists 200001. split; left; reflexivity.
+Qed.
+Theorem unique_per_ws_without_arg_sync :
+  forall ps h ws ev w' ev' rep,
+  bounded (h ++ [IEvent ws ev]) -> singles_ok (h ++ [IEvent ws ev]) -> arg_ids_raw h ->
+  step_event_gen false ps (run_gen false ps st_init h ws) ev = (w', Accepted ev' rep) ->
+  NoDup (map snd rep) /\ (forall x, In x (map snd rep) -> ~ In x (w_log (run_gen false ps st_init h ws))).
+Proof.
+  intros ps h ws ev w' ev' rep HB HS HA E.
+  destruct (unique_proved false ps h ws ev w' ev' rep HB HS (or_intror HA) E) as (A & B & _). exact (conj A B).
+Qed.
+
+(* F42: without the guard UpdateOnSync(MaxUint64) resets the generator to 0; with it the generator stays *)
+Lemma update_on_sync_wrapped_without_guard :
+  update_on_sync_gen false c04_first_user_id 18446744073709551615 = 0
+  /\ update_on_sync c04_first_user_id 18446744073709551615 = c04_first_user_id.
+Proof. split; vm_compute; reflexivity. Qed.
 
 (* ================= non-vacuity ================= *)
 (* a history over two workspaces with a synced event (explicit IDs above and below next), an argument tree,
@@ -162,7 +180,6 @@ Definition ex_event : event :=
 Example history_nonvacuous :
   boundedb (ex_history ++ [IEvent 1 ex_event]) = true
   /\ singles_okb (ex_history ++ [IEvent 1 ex_event]) = true
-  /\ arg_ids_rawb ex_history = true
   /\ w_next (run st_init ex_history 1) = 200013
   /\ w_log (run st_init ex_history 1) = [200001; 200002; 65538; 200010; 200011; 70000; 200012]
   /\ w_log (run st_init ex_history 2) = [200001; 200002; 200003]
@@ -172,32 +189,45 @@ Example history_nonvacuous :
                 [(1, 200013); (2, 200014); (3, 200015)].
 Proof. vm_compute. repeat split. Qed.
 
+Example link_nonvacuous :
+  let h := ex_history ++ [IEvent 1 ex_event] in
+  satisfies (model_trace st_init h) = true /\ agrees (model_trace st_init h) = true
+  /\ length (model_trace st_init h) = 6%nat.
+Proof. vm_compute. repeat split. Qed.
+
 Example recovery_nonvacuous :
-  (* the synced argument ID 200001 is invisible to the live generator but not to recovery *)
+  (* an explicit argument ID of a synced event: the live generator and the recovered one agree (F41 repaired);
+     an explicit ID of MaxUint64 leaves the generator where it was (F42 repaired) *)
   let h := [IEvent 1 (mkEv true [mkRow 200001 0 [0; 0] 0] [] [])] in
-  boundedb h = true /\ w_next (run st_init h 1) = 200001 /\ w_next (run st_init (h ++ [IRestart]) 1) = 200002.
+  let h' := [IEvent 1 (mkEv true [] [mkRow 18446744073709551615 0 [0; 0] 0] [])] in
+  boundedb h = true /\ w_next (run st_init h 1) = 200002 /\ w_next (run st_init (h ++ [IRestart]) 1) = 200002
+  /\ w_next (run st_init h' 1) = 200001 /\ w_log (run st_init h' 1) = [18446744073709551615].
 Proof. vm_compute. repeat split. Qed.
 
 Example substitution_nonvacuous :
+  (* creates and updates refer to raw IDs of the argument document (F12 repaired), to each other, to a singleton
+     and to an existing record *)
   let ev := mkEv false [mkRow 1 0 [2; 0] 0; mkRow 2 1 [2; 1] 0]
-                       [mkRow 3 0 [4; 5] 0; mkRow 4 3 [3; 300000] 0; mkRow 5 0 [0; 3] 65538] [mkRow 300000 0 [4; 5] 0] in
-  valid ev = true /\ arg_freeb ev = true /\ roomb 0 200001 (e_arg ev ++ e_creates ev) = true
+                       [mkRow 3 0 [1; 5] 0; mkRow 4 3 [3; 300000] 0; mkRow 5 0 [2; 3] 65538] [mkRow 300000 0 [4; 1] 0] in
+  valid ev = true /\ roomb 0 200001 (e_arg ev ++ e_creates ev) = true
   /\ forallb single_okb (e_creates ev) = true
   /\ regenerate 200001 ev
      = (200005,
         mkEv false [mkRow 200001 0 [200002; 0] 0; mkRow 200002 200001 [200002; 200001] 0]
-                   [mkRow 200003 0 [200004; 65538] 0; mkRow 200004 200003 [200003; 300000] 0; mkRow 65538 0 [0; 200003] 65538]
-                   [mkRow 300000 0 [200004; 65538] 0],
+                   [mkRow 200003 0 [200001; 65538] 0; mkRow 200004 200003 [200003; 300000] 0; mkRow 65538 0 [200002; 200003] 65538]
+                   [mkRow 300000 0 [200004; 200001] 0],
         [(1, 200001); (2, 200002); (3, 200003); (4, 200004)]).
 Proof. vm_compute. repeat split. Qed.
 
-Print Assumptions generated_ids_are_user_ids_refuted.
-Print Assumptions generated_ids_are_user_ids_partial.
+Print Assumptions generated_ids_are_user_ids.
+Print Assumptions generated_ids_are_user_ids_unbounded_refuted.
 Print Assumptions ids_strictly_increasing.
-Print Assumptions unique_per_ws_refuted.
-Print Assumptions unique_per_ws_partial.
-Print Assumptions unique_per_ws_when_arg_pass_syncs.
+Print Assumptions unique_per_ws.
 Print Assumptions recovery_dominates_log.
-Print Assumptions substitution_consistent_refuted.
-Print Assumptions substitution_consistent_partial.
-Print Assumptions substitution_consistent_when_plans_shared.
+Print Assumptions substitution_consistent.
+Print Assumptions model_traces_satisfy_the_oracle.
+Print Assumptions substitution_refuted_with_separate_plans.
+Print Assumptions substitution_consistent_with_separate_plans.
+Print Assumptions unique_refuted_without_arg_sync.
+Print Assumptions unique_per_ws_without_arg_sync.
+Print Assumptions update_on_sync_wrapped_without_guard.
